@@ -39,16 +39,21 @@ def _syms(e, cache):
     return out
 
 
-def relevant_facts(facts, seeds, cache):
+def relevant_facts(facts, seeds, cache, hops=None):
     defines = ctx().defines
     fs = [(f, _syms(f, cache), defines.get(f.get_id())) for f in facts]
     cur = set(seeds)
     chosen = [False] * len(fs)
     changed = True
+    rounds = 0
     while changed:
+        if hops is not None and rounds >= hops:
+            break
+        rounds += 1
+        frozen = set(cur)
         changed = False
         for i, (f, s, d) in enumerate(fs):
-            if not chosen[i] and ((d & cur) if d else (s & cur)):
+            if not chosen[i] and ((d & frozen) if d else (s & frozen)):
                 chosen[i] = True
                 if not s <= cur:
                     cur |= s
@@ -56,9 +61,9 @@ def relevant_facts(facts, seeds, cache):
     return [f for (f, _, _), c in zip(fs, chosen) if c], cur
 
 
-def to_smt2(ob, facts, cache, extra_axioms=True):
+def to_smt2(ob, facts, cache, extra_axioms=True, hops=None):
     seeds = _syms(ob.hyp, cache) | _syms(ob.goal, cache)
-    rel, cur = relevant_facts(facts[: getattr(ob, "stamp", len(facts))], seeds, cache)
+    rel, cur = relevant_facts(facts[: getattr(ob, "stamp", len(facts))], seeds, cache, hops)
     s = z3.Solver()
     for f in rel:
         s.add(f)
@@ -180,9 +185,17 @@ def pool(n=None):
 def discharge(obligations, facts, timeout_ms=20000, seed=0, second=None, jobs=None):
     """Returns list of dict(result, model, reason, secs, backend) aligned with obligations."""
     cache = {}
-    texts = [to_smt2(ob, facts, cache) for ob in obligations]
     ex = pool(jobs)
-    res = list(ex.map(_check_z3, [(t, timeout_ms, seed, True) for t in texts]))
+    # first pass: only facts within two symbol-hops of the obligation (dropping facts is sound); second pass: full cone
+    texts = [to_smt2(ob, facts, cache, hops=2) for ob in obligations]
+    res = list(ex.map(_check_z3, [(t, min(timeout_ms, 8000), seed, True) for t in texts]))
+    redo = [i for i, r in enumerate(res) if r[0] != "unsat"]
+    if redo:
+        full = {i: to_smt2(obligations[i], facts, cache) for i in redo}
+        res2 = list(ex.map(_check_z3, [(full[i], timeout_ms, seed, True) for i in redo]))
+        for i, r in zip(redo, res2):
+            res[i] = r
+            texts[i] = full[i]
     out = []
     for ob, t, r in zip(obligations, texts, res):
         f = getattr(ob, "forced", None)
